@@ -1,0 +1,145 @@
+//go:build verif
+
+// Contracts of the REST layer (comment-only; read by /verif/govc).
+// Requests and responses are described by ghost readings:
+//   ispost/isget(ctx), reqbody(ctx), reqquery(ctx, key); jok(text, T), jstr/jnum/jbool/jhas(text, path);
+//   respstatus(ctx), respbody(ctx), respnbody(ctx) (number of times a body was written).
+
+package api
+
+//@ func api.writeError(ctx, statusCode, msg, details)
+//@   requires ctx != nil
+//@   modifies ctx
+//@   ensures respstatus(ctx) == statusCode && jstr(respbody(ctx), "message") == msg && respnbody(ctx) == old(respnbody(ctx)) + 1
+
+//@ func api.(*otpGenerateReq).validate(t) (err)
+//@   requires t != nil
+//@   ensures err == nil <==> trim(t.Secret) != ""
+//@ func api.(*otpValidateReq).validate(t) (err)
+//@   requires t != nil
+//@   ensures err == nil <==> trim(t.Secret) != "" && trim(t.Code) != ""
+//@ func api.(*otpURLGenerateReq).validate(t) (err)
+//@   requires t != nil
+//@   ensures err == nil <==> trim(t.Type) != "" && trim(t.Secret) != "" && trim(t.Issuer) != "" && trim(t.AccountName) != ""
+//@ func api.(*suiteConfigReq).validate(t) (err)
+//@   requires t != nil
+//@   ensures err == nil <==> trim(t.RawSuite) != "" && maphas(knownSuites, t.RawSuite)
+//@ macro ocrareqok(t) = trim(t.Secret) != "" && !(trim(t.RawSuite) == "" && t.Suite == nil) && !(trim(t.RawSuite) != "" && !maphas(knownSuites, t.RawSuite)) && t.Input != nil
+//@ func api.(*ocraGenerateReq).validate(t) (err)
+//@   requires t != nil
+//@   ensures err == nil <==> ocrareqok(t)
+//@ func api.(*ocraValidateReq).validate(t) (err)
+//@   requires t != nil
+//@   ensures err == nil <==> ocrareqok(t) && trim(t.Code) != ""
+
+// ---- TOTP / HOTP ------------------------------------------------------------
+
+//@ func api.totpGeneration$1(ctx)
+//@   requires ctx != nil && respnbody(ctx) == 0
+//@   modifies ctx
+//@   let b = reqbody(ctx)
+//@   let sec = trim(jstr(b, "secret"))
+//@   let ok = ispost(ctx) && jok(b, otpGenerateReq) && sec != ""
+//@   ensures[method] !ispost(ctx) ==> respstatus(ctx) == 405
+//@   ensures[badjson] ispost(ctx) && !jok(b, otpGenerateReq) ==> respstatus(ctx) == 400
+//@   ensures[missing] ispost(ctx) && jok(b, otpGenerateReq) && sec == "" ==> respstatus(ctx) == 400
+//@   ensures[maps] ok && jnum(b, "timestamp") > 0 && b32ok(sec) ==> respstatus(ctx) == 200 && jnum(respbody(ctx), "timestamp") == jnum(b, "timestamp") &&
+//@ |   jstr(respbody(ctx), "code") == hotp(algoof(jstr(b, "algorithm")), b32key(sec), jnum(b, "timestamp") / (jnum(b, "period") == 0 ? 30 : jnum(b, "period")), digitsof(jstr(b, "digits")))
+//@   ensures[fails] ok && !b32ok(sec) ==> respstatus(ctx) == 500
+//@   ensures[once] respnbody(ctx) == 1
+
+//@ func api.hotpGeneration$1(ctx)
+//@   requires ctx != nil && respnbody(ctx) == 0
+//@   modifies ctx
+//@   let b = reqbody(ctx)
+//@   let ok = ispost(ctx) && jok(b, otpGenerateReq) && trim(jstr(b, "secret")) != ""
+//@   ensures[method] !ispost(ctx) ==> respstatus(ctx) == 405
+//@   ensures[badjson] ispost(ctx) && !jok(b, otpGenerateReq) ==> respstatus(ctx) == 400
+//@   ensures[missing] ispost(ctx) && jok(b, otpGenerateReq) && trim(jstr(b, "secret")) == "" ==> respstatus(ctx) == 400
+//@   ensures[maps] ok && b32ok(jstr(b, "secret")) ==> respstatus(ctx) == 200 && jnum(respbody(ctx), "counter") == jnum(b, "counter") &&
+//@ |   jstr(respbody(ctx), "code") == hotp(algoof(jstr(b, "algorithm")), b32key(jstr(b, "secret")), jnum(b, "counter"), digitsof(jstr(b, "digits")))
+//@   ensures[fails] ok && !b32ok(jstr(b, "secret")) ==> respstatus(ctx) == 500
+//@   ensures[once] respnbody(ctx) == 1
+
+//@ func api.hotpValidation$1(ctx)
+//@   requires ctx != nil && respnbody(ctx) == 0
+//@   modifies ctx
+//@   let b = reqbody(ctx)
+//@   let ok = ispost(ctx) && jok(b, otpValidateReq) && trim(jstr(b, "secret")) != "" && trim(jstr(b, "code")) != ""
+//@   let s = jnum(b, "skew")
+//@   let c = jnum(b, "counter")
+//@   let d = digitsof(jstr(b, "digits"))
+//@   let a = algoof(jstr(b, "algorithm"))
+//@   requires c + min(s, 10) <= 18446744073709551615
+//@   ensures[method] !ispost(ctx) ==> respstatus(ctx) == 405
+//@   ensures[badjson] ispost(ctx) && !jok(b, otpValidateReq) ==> respstatus(ctx) == 400
+//@   ensures[missing] ispost(ctx) && jok(b, otpValidateReq) && !(trim(jstr(b, "secret")) != "" && trim(jstr(b, "code")) != "") ==> respstatus(ctx) == 400
+//@   ensures[maps] ok ==> respstatus(ctx) == 200 && (jbool(respbody(ctx), "valid") <==> (s <= 10 && b32ok(jstr(b, "secret")) && len(jstr(b, "code")) == d &&
+//@ |   exists j in -10..10 :: -s <= j && j <= s && c + j >= 0 && jstr(b, "code") == hotp(a, b32key(jstr(b, "secret")), c + j, d)))
+//@   ensures[once] respnbody(ctx) == 1
+
+//@ func api.totpValidation$1(ctx)
+//@   requires ctx != nil && respnbody(ctx) == 0
+//@   modifies ctx
+//@   let b = reqbody(ctx)
+//@   let sec = trim(jstr(b, "secret"))
+//@   let ok = ispost(ctx) && jok(b, otpValidateReq) && sec != "" && trim(jstr(b, "code")) != ""
+//@   let s = jnum(b, "skew")
+//@   let p = jnum(b, "period") == 0 ? 30 : jnum(b, "period")
+//@   let n = jnum(b, "timestamp") / p
+//@   let d = digitsof(jstr(b, "digits"))
+//@   let a = algoof(jstr(b, "algorithm"))
+//@   requires jnum(b, "timestamp") < 4611686018427387904 && (jnum(b, "timestamp") > 0 ==> n >= min(s, 10))
+//@   ensures[method] !ispost(ctx) ==> respstatus(ctx) == 405
+//@   ensures[badjson] ispost(ctx) && !jok(b, otpValidateReq) ==> respstatus(ctx) == 400
+//@   ensures[missing] ispost(ctx) && jok(b, otpValidateReq) && !(sec != "" && trim(jstr(b, "code")) != "") ==> respstatus(ctx) == 400
+//@   ensures[maps] ok && jnum(b, "timestamp") > 0 ==> respstatus(ctx) == 200 && (jbool(respbody(ctx), "valid") <==> (s <= 10 && b32ok(sec) && len(jstr(b, "code")) == d &&
+//@ |   exists j in -10..10 :: -s <= j && j <= s && jstr(b, "code") == hotp(a, b32key(sec), n + j, d)))
+//@   ensures[once] respnbody(ctx) == 1
+
+// ---- secrets, suites --------------------------------------------------------
+
+//@ func api.generateRandomSecret$1(ctx)
+//@   requires ctx != nil && respnbody(ctx) == 0
+//@   modifies ctx
+//@   let a = algoof(reqquery(ctx, "algorithm"))
+//@   ensures[method] !isget(ctx) ==> respstatus(ctx) == 405
+//@   ensures[maps] isget(ctx) && respstatus(ctx) == 200 ==> jstr(respbody(ctx), "secret") == b32nopad(sub(rng, rngpos0, rngpos0 + hlen(a))) &&
+//@ |   jstr(respbody(ctx), "algorithm") == algname(a) && rngpos == rngpos0 + hlen(a)
+//@   ensures[status] isget(ctx) ==> respstatus(ctx) == 200 || respstatus(ctx) == 500
+//@   ensures[once] respnbody(ctx) == 1
+
+//@ func api.listOCRASuites$1(ctx)
+//@   requires ctx != nil && respnbody(ctx) == 0
+//@   modifies ctx
+//@   ensures[method] !isget(ctx) ==> respstatus(ctx) == 405
+//@   ensures[ok] isget(ctx) ==> respstatus(ctx) == 200
+//@   ensures[once] respnbody(ctx) == 1
+
+//@ func api.ocraSuiteConfig$1(ctx)
+//@   requires ctx != nil && respnbody(ctx) == 0
+//@   modifies ctx
+//@   let b = reqbody(ctx)
+//@   let raw = jstr(b, "raw_suite")
+//@   let ok = ispost(ctx) && jok(b, suiteConfigReq) && trim(raw) != "" && maphas(knownSuites, raw)
+//@   ensures[method] !ispost(ctx) ==> respstatus(ctx) == 405
+//@   ensures[bad] ispost(ctx) && !ok ==> respstatus(ctx) == 400
+//@   ensures[maps] ok ==> respstatus(ctx) == 200 && jstr(respbody(ctx), "raw") == raw &&
+//@ |   jstr(respbody(ctx), "config.hash_function") == algname(mapget(knownSuites, raw).Hash) &&
+//@ |   jnum(respbody(ctx), "config.code_digits") == mapget(knownSuites, raw).Digits &&
+//@ |   jnum(respbody(ctx), "config.challenge_format") == mapget(knownSuites, raw).Challenge &&
+//@ |   (jbool(respbody(ctx), "config.include_counter") <==> mapget(knownSuites, raw).IncludeCounter) &&
+//@ |   (jbool(respbody(ctx), "config.include_challenge") <==> mapget(knownSuites, raw).IncludeChallenge) &&
+//@ |   (jbool(respbody(ctx), "config.include_password") <==> mapget(knownSuites, raw).IncludePassword) &&
+//@ |   (jbool(respbody(ctx), "config.include_session") <==> mapget(knownSuites, raw).IncludeSession) &&
+//@ |   (jbool(respbody(ctx), "config.include_timestamp") <==> mapget(knownSuites, raw).IncludeTimestamp) &&
+//@ |   jnum(respbody(ctx), "config.password_hash") == mapget(knownSuites, raw).PasswordHash &&
+//@ |   jnum(respbody(ctx), "config.timestep") == mapget(knownSuites, raw).TimeStep
+//@   ensures[once] respnbody(ctx) == 1
+
+//@ func api.home$1(ctx)
+//@   requires ctx != nil && respnbody(ctx) == 0
+//@   modifies ctx
+//@   ensures[method] !isget(ctx) ==> respstatus(ctx) == 405
+//@   ensures[ok] isget(ctx) ==> respstatus(ctx) == 200
+//@   ensures[once] respnbody(ctx) == 1
